@@ -10,7 +10,7 @@ from ..conv import snapshot
 from ..core import Failure
 
 ID = "C17"
-BUDGET = {"quick": 4000, "thorough": 8000}
+BUDGET = {"quick": 4000, "thorough": 16000}
 TECHNIQUE = ("catalogue x Hypothesis-generated inputs (also pre-aligned, aliased, read-only and raising calls) with "
              "byte-level snapshots of every argument before and after the call")
 LEVEL_TEXT = ("Every catalogue entry (registered functions, operators, methods, properties, numpoly-only functions) "
